@@ -60,6 +60,21 @@ func c18Measure(cs c18Case) (allocs float64, bound float64, skipped bool) {
 		if cs.Spare {
 			b = dyn.Alloc(d, al(C, L, L))
 		}
+		if cs.Variant == 1 {
+			// the very first call on a fresh full buffer, without the warm-up call of AllocsPerRun (a buffer
+			// that grows instead of dropping the sample allocates on that call only); minimum over 4 buffers
+			best := uint64(1 << 30)
+			for k := 0; k < 4; k++ {
+				fb := dyn.Alloc(d, al(C, L, L))
+				if cs.Spare {
+					fb = dyn.Alloc(d, al(C, L+2, L+2)).Slice(2, 2+L) // a full window at the end of its parent
+				}
+				if m := dyn.MallocsDuring(func() { fb.AppendSample(one) }); m < best {
+					best = m
+				}
+			}
+			return float64(best), 0, false
+		}
 		return dyn.AllocsPerRun(c18Runs, func() { b.AppendSample(one) }), 0, false
 	case "read":
 		b := mkBuf(s, L)
@@ -210,6 +225,9 @@ func init() {
 								}
 
 								cases = append(cases, c18Case{Op: op, S: tn(t), D: tn(t), C: C, L: L, Spare: spare})
+								if op == "appendsample-full" {
+									cases = append(cases, c18Case{Op: op, S: tn(t), D: tn(t), C: C, L: L, Spare: spare, Variant: 1})
+								}
 								if op == "append" {
 									cases = append(cases, c18Case{Op: op, S: tn(t), D: tn(t), C: C, L: L, Spare: spare, Variant: 1})
 								}
@@ -274,7 +292,7 @@ func init() {
 			c.Sample(cases[0])
 			c.Sample(cases[len(cases)/2])
 			c.Sample(cases[len(cases)-1])
-			c.Set("rule", "every configuration of {Sample/SetSample, AppendSample (not full / full), Append within capacity (also filling it exactly), self-Append within capacity, Channel view + all its methods, Slice, pool Get/AppendSample/Put cycle on the real sync.Pool (through a pointer, and through copies of the allocator value passed by value, made before and after its first use)} x 13 types and {Read, Write, ReadStriped, WriteStriped (slices equal/short+uneven/long/empty+nil), the nine conversions (source equal/shorter/longer; same-type conversions also between overlapping windows of one buffer and in place)} x 169 type pairs, x C in {1,2,8} x lengths {0,1,64,1100[,4096]}, pools up to 8 x 4096 and 1 x 20000 samples for every case shape, plus pools of 160000 .. 4.2 million samples for all 13 types and of 2^24+5 samples (16-128 MiB) for three x plain buffer / window with spare capacity; monitor: testing.AllocsPerRun (GOMAXPROCS 1, warm-up call, integer mean), a non-zero reading is re-measured 5x and the minimum taken; bound 0, Slice <= 1; non-trivial = length > 0; configurations distinct by construction")
+			c.Set("rule", "every configuration of {Sample/SetSample, AppendSample (not full / full, also the very first call on a fresh full buffer, counted without a warm-up call), Append within capacity (also filling it exactly), self-Append within capacity, Channel view + all its methods, Slice, pool Get/AppendSample/Put cycle on the real sync.Pool (through a pointer, and through copies of the allocator value passed by value, made before and after its first use)} x 13 types and {Read, Write, ReadStriped, WriteStriped (slices equal/short+uneven/long/empty+nil), the nine conversions (source equal/shorter/longer; same-type conversions also between overlapping windows of one buffer and in place)} x 169 type pairs, x C in {1,2,8} x lengths {0,1,64,1100[,4096]}, pools up to 8 x 4096 and 1 x 20000 samples for every case shape, plus pools of 160000 .. 4.2 million samples for all 13 types and of 2^24+5 samples (16-128 MiB) for three x plain buffer / window with spare capacity; monitor: testing.AllocsPerRun (GOMAXPROCS 1, warm-up call, integer mean), a non-zero reading is re-measured 5x and the minimum taken; bound 0, Slice <= 1; non-trivial = length > 0; configurations distinct by construction")
 			c.Assume("allocation sites are static: which are reached depends only on instantiation and branch, both enumerated", "not run under -race (race-mode sync.Pool drops items at random)", "runs in the plain build (no overlay): the unmodified package and the real sync.Pool")
 		},
 		RunCase: func(c *core.Ctx, raw json.RawMessage) []F {
